@@ -97,14 +97,9 @@ pub fn verbatim_mask(out: &str, toks: &[RTok]) -> Vec<bool> {
         let mut this = off || t.in_asm;
         if matches!(t.kind, RK::LineComment | RK::BlockComment) {
             if let Some(on) = toggle_of(t.text(out)) {
-                if !on {
-                    off = true;
-                    this = true;
-                } else {
-                    // the `on` comment itself still belongs to the region
-                    this = off || this;
-                    off = false;
-                }
+                // a toggle comment is itself always kept verbatim, whatever the current state
+                this = true;
+                off = !on;
             }
         }
         mask[i] = this;
